@@ -872,3 +872,5 @@ func c16PoolCases(thorough bool) []*scenario {
 	}
 	return out
 }
+
+type blDef = blcfg.BalloonDef
